@@ -103,6 +103,10 @@ func (g *egen) atom(t gtype) string {
 		}
 		return g.pick(`"a"`, `"ab"`, `"abc"`, `""`, `'b'`, "S", "S2", "St.Y")
 	case tArrInt:
+		if g.innermost(tInt) && g.rng.Intn(3) == 0 {
+			// a collection that depends on the element of the ENCLOSING closure
+			return g.pick("(1..#)", "(#..3)", "[#, 1, #]", "(0..(# + 1))")
+		}
 		return g.pick("AI", "AI", "1..3", "[1, 2, 3]")
 	case tArrStr:
 		return g.pick("AS", `["a", "b"]`)
@@ -361,6 +365,17 @@ func (g *egen) anyExpr(d int) string {
 		return "Fast(" + strings.Join(args, ", ") + ")"
 	}
 	g.note("nil-safe")
+	if g.rng.Intn(2) == 0 {
+		// nil-safe method calls WITH arguments on receivers that may be an untyped nil
+		recv := g.pick("Any", "AA[2]", "MA[\"n\"]", "MA.n", "Any?.foo", "P?.Next")
+		n := 1 + g.rng.Intn(3)
+		args := make([]string, n)
+		for i := range args {
+			args[i] = g.expr(tInt, 0)
+		}
+		call := fmt.Sprintf("%s?.%s(%s)", recv, g.pick("Plus", "Get", "Foo"), strings.Join(args, ", "))
+		return g.pick(call, "["+g.expr(tInt, 0)+", "+call+", "+g.expr(tStr, 0)+"]", "("+call+" == nil)")
+	}
 	return g.pick("P?.X", "P?.Next?.Y", "St.Next?.Next", "Any?.foo", "P?.Get()", "Boom(1)")
 }
 
@@ -391,6 +406,9 @@ func exhaustiveExprs(level int) []string {
 	}
 	for _, l := range leaves {
 		out = append(out, "len("+l+")", l+"[1]", l+"[0:1]", l+"[:1]", l+"[1:]", l+".X", l+"?.X", "["+l+"]", "{a: "+l+"}", l+".Get()", l+"?.Get()", "Id("+l+")", "Inc("+l+")", "Fast("+l+")")
+		if l != "1" && l != "nil" && l != `"a"` {
+			out = append(out, l+"?.Plus(1, 2)", "[7, "+l+"?.Plus(I, 2), 9]", "Any?.Plus("+l+")", "[Any?.Foo("+l+", 1), 2]")
+		}
 		for _, bi := range []string{"all", "none", "any", "one", "filter", "map", "count"} {
 			out = append(out, bi+"("+l+", {true})", bi+"("+l+", {#})", bi+"(AI, {# > "+l+"})", bi+"(AI, {"+l+"})")
 		}
